@@ -45,7 +45,7 @@ const B: &[&str] = &[
     "offset_negative", "offset_zero", "offset_positive", "offset_extreme",
     // names
     "weekday_display", "weekday_debug", "month_debug",
-    "random_products",
+    "random_products", "local_zone_round_trip",
 ];
 
 fn bi(n: &str) -> usize {
@@ -798,6 +798,7 @@ pub fn run(ctx: &Ctx) -> Outcome {
     times(ctx, &env);
     products(ctx, &env);
     offsets_and_fixed(ctx, &env);
+    local_child(ctx, &env);
     let full = ctx.tier == Tier::Thorough;
     if full {
         rep.exhaustive.store(true, Ordering::Relaxed);
@@ -816,10 +817,48 @@ pub fn run(ctx: &Ctx) -> Outcome {
         &[
             "R-cal / R-inst (harness/src/refcal.rs, refinst.rs) are correct: self-tested at the start of every run",
             "the constructors from_num_days_from_ce_opt / from_num_seconds_from_midnight_opt / from_utc_datetime and the accessors used to read a parsed value back are correct (properties C01, C02, C04)",
-            "leap-second representations only on second 59 of a minute and offsets of whole minutes only, as the property states; DateTime<Local> is not covered",
+            "leap-second representations only on second 59 of a minute and offsets of whole minutes only, as the property states; DateTime<Local> is driven in child processes with TZ set to four rule zones with whole-minute offsets",
             "Month has no Display impl; its default printed form is the derived Debug",
         ],
     )
+}
+
+/// `DateTime<Local>` in a process whose local zone is not UTC (child processes started with `TZ`
+/// set to zones with whole-minute offsets): Display / Debug / RFC 3339 text parses back through
+/// `FromStr for DateTime<Local>` to the same instant with the zone's offset. In-process the local
+/// zone of this sandbox is UTC, where every printed offset is +00:00.
+fn local_child(ctx: &Ctx, env: &Env) {
+    use crate::props::tzchild::{self, Ans};
+    let mut loc = env.rep.local();
+    let bk = bi("local_zone_round_trip");
+    for (zi, tz) in ["IST-5:30", "NST3:30NDT,M3.2.0,M11.1.0", "NZST-12NZDT,M9.5.0,M4.1.0/3", "<-03>3"].iter().enumerate() {
+        let mut rng = Rng::new(ctx.seed, "C09/local-child", zi as u64);
+        let mut q: Vec<(char, i64)> = Vec::new();
+        for _ in 0..ctx.n(250, 20_000) {
+            let u = match rng.below(4) {
+                0 => rng.range(1_600_000_000, 1_700_000_000),
+                1 => *rng.pick(&[1_615_705_200i64, 1_636_264_800, 1_632_578_400, 1_617_458_400]) + rng.range(-90_000, 90_000),
+                2 => rng.range(-62_135_596_800, 253_402_300_799),
+                _ => rng.range(-2_000_000_000, 4_000_000_000),
+            };
+            q.push(('P', u));
+        }
+        match tzchild::run_child(&ctx.work_dir, &format!("c09-{}", zi), Some(tz), &q) {
+            Ok(ans) => {
+                for ((_, u), a) in q.iter().zip(ans.iter()) {
+                    loc.eval();
+                    loc.bucket(bk);
+                    match a {
+                        Ans::Single(_) => {}
+                        Ans::Panic(msg) if msg.starts_with(tzchild::GLUE) => loc.violation("C09/DateTime<Local>/parse/text-does-not-parse-back-to-the-value", json!({"TZ": tz, "unix": u, "message": msg})),
+                        other => loc.violation("C09/DateTime<Local>/parse/panic-or-error", json!({"TZ": tz, "unix": u, "observed": other.print()})),
+                    }
+                    loc.nontrivial(h2(93, h2(zi as u64, *u as u64)));
+                }
+            }
+            Err(e) => env.rep.harness_error(format!("C09 local-zone child died: {}", e)),
+        }
+    }
 }
 
 fn names(env: &Env) {
